@@ -100,10 +100,36 @@ def check_t1(chk, mods, K, min_n=2):
 def check_t2(chk, m, mu, K):
     fn, ps = fib.fn_paths(mu, "cyclecmp32")
     chk.note_fn(fn)
+    # decided for all 2^64 argument pairs: on every path the value returned is (a - b) mod 2^32 (read as int32_t)
+    from ..domains.bdd import BDD, BV
+    from ..domains.bvexec import expr_bv, Top
+    B = BDD()
+    bv = BV(B)
+    av = [B.var(2 * i) for i in range(32)]
+    bw = [B.var(2 * i + 1) for i in range(32)]
+    atom = lambda x: av if x == ("arg", 0) else bw if x == ("arg", 1) else None
+    want = bv.sub(av, bw)
     for p in ps:
-        r = strip_casts(p.ret)
-        ok = r == ("b", "sub", 32, ("arg", 0), ("arg", 1))
-        chk.ob("T2.difference", "cyclecmp32", ok, "cyclecmp32(a, b) returns a - b (got %s)" % fmt(p.ret)[:60], fn.loc, fn.name)
+        pid = "cyclecmp32" + ("" if len(ps) == 1 else " path " + "->".join(b.lstrip("%") for b in p.blocks))
+        try:
+            pc = 1
+            for c, taken, inst in p.conds:
+                v = expr_bv(c, bv, atom)
+                bit = 0
+                for x in v:
+                    bit = B.OR(bit, x)
+                pc = B.AND(pc, bit if taken else B.NOT(bit))
+            rv = bv.trunc(expr_bv(p.ret, bv, atom), 32)
+        except (Top, KeyError, IndexError, TypeError) as t:
+            chk.unknown("T2.difference", pid, "outside the bit-vector fragment: %s" % t, fn.loc)
+            continue
+        bad = B.AND(pc, B.NOT(bv.eq(rv, want)))
+        wit = ""
+        if bad != 0:
+            a_ = B.sat_one(bad) or {}
+            wit = "; e.g. a=%d b=%d" % (sum((1 << i) for i in range(32) if a_.get(2 * i)), sum((1 << i) for i in range(32) if a_.get(2 * i + 1)))
+        chk.ob("T2.difference", pid, bad == 0, "cyclecmp32(a, b) returns (a - b) mod 2^32 as a signed value for all argument pairs "
+               "(got %s)%s" % (fmt(p.ret)[:60], wit), fn.loc, fn.name)
     fn, ps = fib.fn_paths(m, "duetime_cmp")
     chk.note_fn(fn)
     d = K.fibre["duetime"][0] - K.link_off
